@@ -1,9 +1,1070 @@
-//! C19 — (module under construction)
-use crate::report::{Coverage, Reporter};
-use serde_json::Value;
+//! C19 — loading untrusted serialisations never panics, aborts or hangs.
+//! Exhaustive 1- (quick) and 2-deviation (thorough, small seeds) mutation space of seed documents (STAM JSON stores,
+//! annotation arrays, dataset files, STAM CSV, CBOR), every mutated document loaded by the real loader in an isolated
+//! worker process with an allocation cap and a wall-clock limit; plus all short strings through the small string parsers.
 
-pub fn run(_rep: &Reporter) -> Coverage {
-    Coverage::default()
+use crate::c01::dangling_probe;
+use crate::observe::check_reverse;
+use crate::ops::*;
+use crate::report::{Coverage, Reporter, Tier};
+use crate::util::{catch, fnv64, msg_class};
+use serde_json::{json, Value};
+use stam::*;
+use std::io::{BufRead, BufReader, Write};
+use std::process::{Child, Command, Stdio};
+use std::sync::atomic::{AtomicBool, AtomicU64, AtomicUsize, Ordering};
+use std::sync::mpsc;
+use std::sync::Mutex;
+use std::time::Duration;
+
+// ---------------------------------------------------------------------------------------------
+// counting allocator (armed only in worker processes)
+
+pub struct CapAlloc;
+static ARMED: AtomicBool = AtomicBool::new(false);
+static LIVE: AtomicUsize = AtomicUsize::new(0);
+const LIVE_CAP: usize = 1 << 30; // 1 GiB live heap
+const REQ_CAP: usize = 256 << 20; // 256 MiB in one request
+
+fn cap_abort(what: &str) -> ! {
+    // no allocation here: write a fixed marker and abort
+    let msg: &[u8] = if what == "req" { b"\nABORT alloc-cap single-request\n" } else { b"\nABORT alloc-cap live-heap\n" };
+    unsafe {
+        libc_write(1, msg.as_ptr(), msg.len());
+    }
+    std::process::abort();
 }
 
-pub fn replay(_rep: &Reporter, _case: &Value) {}
+extern "C" {
+    #[link_name = "write"]
+    fn libc_write(fd: i32, buf: *const u8, count: usize) -> isize;
+}
+
+unsafe impl std::alloc::GlobalAlloc for CapAlloc {
+    unsafe fn alloc(&self, layout: std::alloc::Layout) -> *mut u8 {
+        if ARMED.load(Ordering::Relaxed) {
+            if layout.size() > REQ_CAP {
+                cap_abort("req");
+            }
+            if LIVE.fetch_add(layout.size(), Ordering::Relaxed) + layout.size() > LIVE_CAP {
+                cap_abort("live");
+            }
+        }
+        std::alloc::System.alloc(layout)
+    }
+    unsafe fn dealloc(&self, ptr: *mut u8, layout: std::alloc::Layout) {
+        if ARMED.load(Ordering::Relaxed) {
+            LIVE.fetch_sub(layout.size(), Ordering::Relaxed);
+        }
+        std::alloc::System.dealloc(ptr, layout)
+    }
+    unsafe fn realloc(&self, ptr: *mut u8, layout: std::alloc::Layout, new_size: usize) -> *mut u8 {
+        if ARMED.load(Ordering::Relaxed) {
+            if new_size > REQ_CAP {
+                cap_abort("req");
+            }
+            if new_size > layout.size() {
+                if LIVE.fetch_add(new_size - layout.size(), Ordering::Relaxed) + (new_size - layout.size()) > LIVE_CAP {
+                    cap_abort("live");
+                }
+            } else {
+                LIVE.fetch_sub(layout.size() - new_size, Ordering::Relaxed);
+            }
+        }
+        std::alloc::System.realloc(ptr, layout, new_size)
+    }
+}
+
+// ---------------------------------------------------------------------------------------------
+// worker side
+
+#[derive(Clone, Copy, Debug, PartialEq, Eq)]
+pub enum Loader {
+    StoreJson,
+    StoreCsv,
+    StoreCbor,
+    AnnotateFromFile,
+    DatasetJson,
+}
+
+impl Loader {
+    fn name(&self) -> &'static str {
+        match self {
+            Loader::StoreJson => "store-json",
+            Loader::StoreCsv => "store-csv",
+            Loader::StoreCbor => "store-cbor",
+            Loader::AnnotateFromFile => "annotate-from-file",
+            Loader::DatasetJson => "dataset-json",
+        }
+    }
+    fn from_name(s: &str) -> Option<Loader> {
+        [Loader::StoreJson, Loader::StoreCsv, Loader::StoreCbor, Loader::AnnotateFromFile, Loader::DatasetJson].into_iter().find(|l| l.name() == s)
+    }
+}
+
+/// consistency of a store that a loader returned: C01 (reverse lookups = forward references), C02 (no dangling), C03 (ids resolve to their items)
+fn consistency(store: &AnnotationStore) -> Option<String> {
+    let r = catch(|| {
+        if let Some(f) = check_reverse(store).into_iter().next() {
+            return Some(format!("C01:{}:{}", f.accessor, f.symptom));
+        }
+        if let Some((symptom, _)) = dangling_probe(store) {
+            return Some(format!("C02:{}", symptom));
+        }
+        for a in store.annotations() {
+            if let Some(id) = a.id() {
+                if store.annotation(id).map(|x| x.handle()) != Some(a.handle()) {
+                    return Some("C03:annotation-id-does-not-resolve-to-itself".to_string());
+                }
+            }
+        }
+        for r in store.resources() {
+            if let Some(id) = r.id() {
+                if store.resource(id).map(|x| x.handle()) != Some(r.handle()) {
+                    return Some("C03:resource-id-does-not-resolve-to-itself".to_string());
+                }
+            }
+        }
+        for s in store.datasets() {
+            if let Some(id) = s.id() {
+                if store.dataset(id).map(|x| x.handle()) != Some(s.handle()) {
+                    return Some("C03:dataset-id-does-not-resolve-to-itself".to_string());
+                }
+            }
+            for d in s.data() {
+                if let Some(id) = d.id() {
+                    if s.annotationdata(id).map(|x| x.handle()) != Some(d.handle()) {
+                        return Some("C03:data-id-does-not-resolve-to-itself".to_string());
+                    }
+                }
+            }
+        }
+        None
+    });
+    match r {
+        Ok(x) => x,
+        Err(p) => Some(format!("panic-while-observing:{}", msg_class(&p))),
+    }
+}
+
+/// load one document with the real loader; verdict string: "err", "ok", "inconsistent:<what>", "panic:<class>"
+fn load_one(loader: Loader, path: &str, base: &str) -> String {
+    let r = catch(|| -> Result<Option<String>, String> {
+        match loader {
+            Loader::StoreJson | Loader::StoreCsv | Loader::StoreCbor => {
+                let store = AnnotationStore::from_file(path, Config::default()).map_err(|e| format!("{}", e))?;
+                Ok(consistency(&store))
+            }
+            Loader::DatasetJson => {
+                let mut store = AnnotationStore::new(Config::default());
+                store.add_dataset_from_file(path).map_err(|e| format!("{}", e))?;
+                Ok(consistency(&store))
+            }
+            Loader::AnnotateFromFile => {
+                let mut store = AnnotationStore::from_file(base, Config::default()).map_err(|e| format!("base:{}", e))?;
+                let r = store.annotate_from_file(path).map(|_| ());
+                // whether the batch succeeded or not, the store must stay consistent
+                let c = consistency(&store);
+                match (r, c) {
+                    (_, Some(c)) => Ok(Some(c)),
+                    (Ok(()), None) => Ok(None),
+                    (Err(e), None) => Err(format!("{}", e)),
+                }
+            }
+        }
+    });
+    match r {
+        Ok(Ok(None)) => "ok".into(),
+        Ok(Ok(Some(c))) => format!("inconsistent:{}", c),
+        Ok(Err(_)) => "err".into(),
+        Err(p) => format!("panic:{}", msg_class(&p)),
+    }
+}
+
+/// worker main loop: one request per line `<id> <loader> <path> <base>`; one answer per line `END <id> <verdict>`
+pub fn worker_main() {
+    crate::util::install_quiet_panic_hook();
+    ARMED.store(true, Ordering::SeqCst);
+    let stdin = std::io::stdin();
+    let mut out = std::io::stdout();
+    for line in stdin.lock().lines() {
+        let line = match line {
+            Ok(l) => l,
+            Err(_) => break,
+        };
+        let parts: Vec<&str> = line.splitn(4, ' ').collect();
+        if parts.len() < 4 {
+            continue;
+        }
+        let verdict = match Loader::from_name(parts[1]) {
+            Some(l) => load_one(l, parts[2], parts[3]),
+            None => "bad-request".into(),
+        };
+        let _ = writeln!(out, "END {} {}", parts[0], verdict);
+        let _ = out.flush();
+    }
+}
+
+// ---------------------------------------------------------------------------------------------
+// order-preserving JSON tree (the STAM JSON loader streams documents: member order matters)
+
+#[derive(Clone, Debug, PartialEq)]
+pub enum J {
+    Null,
+    Bool(bool),
+    Num(String),
+    Str(String),
+    Arr(Vec<J>),
+    Obj(Vec<(String, J)>),
+}
+
+struct P<'a> {
+    s: &'a [u8],
+    i: usize,
+}
+
+impl<'a> P<'a> {
+    fn ws(&mut self) {
+        while self.i < self.s.len() && (self.s[self.i] as char).is_whitespace() {
+            self.i += 1;
+        }
+    }
+    fn val(&mut self) -> Option<J> {
+        self.ws();
+        match *self.s.get(self.i)? {
+            b'{' => {
+                self.i += 1;
+                let mut m = Vec::new();
+                loop {
+                    self.ws();
+                    if *self.s.get(self.i)? == b'}' {
+                        self.i += 1;
+                        return Some(J::Obj(m));
+                    }
+                    let k = match self.val()? {
+                        J::Str(k) => k,
+                        _ => return None,
+                    };
+                    self.ws();
+                    if *self.s.get(self.i)? != b':' {
+                        return None;
+                    }
+                    self.i += 1;
+                    let v = self.val()?;
+                    m.push((k, v));
+                    self.ws();
+                    if *self.s.get(self.i)? == b',' {
+                        self.i += 1;
+                    }
+                }
+            }
+            b'[' => {
+                self.i += 1;
+                let mut a = Vec::new();
+                loop {
+                    self.ws();
+                    if *self.s.get(self.i)? == b']' {
+                        self.i += 1;
+                        return Some(J::Arr(a));
+                    }
+                    a.push(self.val()?);
+                    self.ws();
+                    if *self.s.get(self.i)? == b',' {
+                        self.i += 1;
+                    }
+                }
+            }
+            b'"' => {
+                let start = self.i;
+                self.i += 1;
+                while self.i < self.s.len() {
+                    match self.s[self.i] {
+                        b'\\' => self.i += 2,
+                        b'"' => {
+                            self.i += 1;
+                            let raw = std::str::from_utf8(&self.s[start..self.i]).ok()?;
+                            return serde_json::from_str::<String>(raw).ok().map(J::Str);
+                        }
+                        _ => self.i += 1,
+                    }
+                }
+                None
+            }
+            _ => {
+                let start = self.i;
+                while self.i < self.s.len() && !matches!(self.s[self.i], b',' | b'}' | b']') && !(self.s[self.i] as char).is_whitespace() {
+                    self.i += 1;
+                }
+                let t = std::str::from_utf8(&self.s[start..self.i]).ok()?;
+                Some(match t {
+                    "null" => J::Null,
+                    "true" => J::Bool(true),
+                    "false" => J::Bool(false),
+                    n => J::Num(n.to_string()),
+                })
+            }
+        }
+    }
+}
+
+impl J {
+    pub fn parse(s: &str) -> Option<J> {
+        let mut p = P { s: s.as_bytes(), i: 0 };
+        p.val()
+    }
+    pub fn render(&self, out: &mut String) {
+        match self {
+            J::Null => out.push_str("null"),
+            J::Bool(b) => out.push_str(if *b { "true" } else { "false" }),
+            J::Num(n) => out.push_str(n),
+            J::Str(s) => out.push_str(&serde_json::to_string(s).unwrap()),
+            J::Arr(a) => {
+                out.push('[');
+                for (i, x) in a.iter().enumerate() {
+                    if i > 0 {
+                        out.push(',');
+                    }
+                    x.render(out);
+                }
+                out.push(']');
+            }
+            J::Obj(m) => {
+                out.push('{');
+                for (i, (k, v)) in m.iter().enumerate() {
+                    if i > 0 {
+                        out.push(',');
+                    }
+                    out.push_str(&serde_json::to_string(k).unwrap());
+                    out.push(':');
+                    v.render(out);
+                }
+                out.push('}');
+            }
+        }
+    }
+    pub fn to_string(&self) -> String {
+        let mut s = String::new();
+        self.render(&mut s);
+        s
+    }
+    /// all node paths (pre-order): each path is a list of child indices
+    fn paths(&self, cur: &mut Vec<usize>, out: &mut Vec<Vec<usize>>) {
+        out.push(cur.clone());
+        match self {
+            J::Arr(a) => {
+                for (i, x) in a.iter().enumerate() {
+                    cur.push(i);
+                    x.paths(cur, out);
+                    cur.pop();
+                }
+            }
+            J::Obj(m) => {
+                for (i, (_, x)) in m.iter().enumerate() {
+                    cur.push(i);
+                    x.paths(cur, out);
+                    cur.pop();
+                }
+            }
+            _ => {}
+        }
+    }
+    fn get_mut(&mut self, path: &[usize]) -> Option<&mut J> {
+        let mut n = self;
+        for i in path {
+            n = match n {
+                J::Arr(a) => a.get_mut(*i)?,
+                J::Obj(m) => &mut m.get_mut(*i)?.1,
+                _ => return None,
+            };
+        }
+        Some(n)
+    }
+    fn get(&self, path: &[usize]) -> Option<&J> {
+        let mut n = self;
+        for i in path {
+            n = match n {
+                J::Arr(a) => a.get(*i)?,
+                J::Obj(m) => &m.get(*i)?.1,
+                _ => return None,
+            };
+        }
+        Some(n)
+    }
+    /// path rendered with member names and `[]` for array positions (class for signatures)
+    fn path_class(&self, path: &[usize]) -> String {
+        let mut n = self;
+        let mut out = String::new();
+        for i in path {
+            match n {
+                J::Arr(a) => {
+                    out.push_str("[]");
+                    n = &a[*i];
+                }
+                J::Obj(m) => {
+                    out.push('.');
+                    out.push_str(&m[*i].0);
+                    n = &m[*i].1;
+                }
+                _ => break,
+            }
+        }
+        // the @type of the nearest enclosing object makes the class more telling
+        out
+    }
+}
+
+#[derive(Clone, Debug)]
+pub struct Mutation {
+    pub op: String,
+    pub path: Vec<usize>,
+}
+
+fn retype_menu() -> Vec<(&'static str, J)> {
+    vec![
+        ("null", J::Null),
+        ("true", J::Bool(true)),
+        ("0", J::Num("0".into())),
+        ("-1", J::Num("-1".into())),
+        ("2^63", J::Num("9223372036854775808".into())),
+        ("1e308", J::Num("1e308".into())),
+        ("empty-string", J::Str(String::new())),
+        ("tempid-max", J::Str("!A18446744073709551615".into())),
+        ("tempid-4e9", J::Str("!A4000000000".into())),
+        ("tempid-D-huge", J::Str("!D999999999".into())),
+        ("tempid-A3", J::Str("!A3".into())),
+        ("empty-array", J::Arr(vec![])),
+        ("empty-object", J::Obj(vec![])),
+        ("unknown-id", J::Str("nope".into())),
+    ]
+}
+
+const TYPE_NAMES: [&str; 12] = [
+    "AnnotationStore", "Annotation", "TextResource", "AnnotationDataSet", "TextSelector", "AnnotationSelector", "ResourceSelector", "DataSetSelector", "DataKeySelector",
+    "AnnotationDataSelector", "MultiSelector", "DirectionalSelector",
+];
+
+/// every single-step mutation of a JSON document
+fn json_mutations(doc: &J, ids: &[String]) -> Vec<(Mutation, J)> {
+    let mut paths = Vec::new();
+    doc.paths(&mut Vec::new(), &mut paths);
+    let mut out: Vec<(Mutation, J)> = Vec::new();
+    for path in &paths {
+        if path.is_empty() {
+            for (name, v) in retype_menu() {
+                out.push((Mutation { op: format!("retype:{}", name), path: path.clone() }, v));
+            }
+            continue;
+        }
+        let (parent_path, last) = (&path[..path.len() - 1], *path.last().unwrap());
+        // delete
+        {
+            let mut d = doc.clone();
+            match d.get_mut(parent_path) {
+                Some(J::Arr(a)) => {
+                    a.remove(last);
+                }
+                Some(J::Obj(m)) => {
+                    m.remove(last);
+                }
+                _ => {}
+            }
+            out.push((Mutation { op: "delete".into(), path: path.clone() }, d));
+        }
+        // duplicate
+        {
+            let mut d = doc.clone();
+            match d.get_mut(parent_path) {
+                Some(J::Arr(a)) => {
+                    let x = a[last].clone();
+                    a.insert(last, x);
+                }
+                Some(J::Obj(m)) => {
+                    let x = m[last].clone();
+                    m.insert(last, x);
+                }
+                _ => {}
+            }
+            out.push((Mutation { op: "duplicate".into(), path: path.clone() }, d));
+        }
+        // swap with next sibling
+        {
+            let mut d = doc.clone();
+            let mut did = false;
+            match d.get_mut(parent_path) {
+                Some(J::Arr(a)) => {
+                    if last + 1 < a.len() {
+                        a.swap(last, last + 1);
+                        did = true;
+                    }
+                }
+                Some(J::Obj(m)) => {
+                    if last + 1 < m.len() {
+                        m.swap(last, last + 1);
+                        did = true;
+                    }
+                }
+                _ => {}
+            }
+            if did {
+                out.push((Mutation { op: "swap-with-next".into(), path: path.clone() }, d));
+            }
+        }
+        // retype
+        for (name, v) in retype_menu() {
+            if doc.get(path) == Some(&v) {
+                continue;
+            }
+            let mut d = doc.clone();
+            if let Some(n) = d.get_mut(path) {
+                *n = v;
+            }
+            out.push((Mutation { op: format!("retype:{}", name), path: path.clone() }, d));
+        }
+        // string-specific: rename @type, redirect references
+        if let Some(J::Str(s)) = doc.get(path) {
+            let key = match doc.get(parent_path) {
+                Some(J::Obj(m)) => m[last].0.clone(),
+                _ => String::new(),
+            };
+            if key == "@type" {
+                for t in TYPE_NAMES {
+                    if t != s {
+                        let mut d = doc.clone();
+                        *d.get_mut(path).unwrap() = J::Str(t.to_string());
+                        out.push((Mutation { op: format!("retype-to:{}", t), path: path.clone() }, d));
+                    }
+                }
+            } else if key != "text" && key != "value" {
+                for id in ids {
+                    if id != s {
+                        let mut d = doc.clone();
+                        *d.get_mut(path).unwrap() = J::Str(id.clone());
+                        out.push((Mutation { op: "redirect-reference".into(), path: path.clone() }, d));
+                    }
+                }
+            }
+        }
+        // wrap a selector in itself
+        if let Some(J::Obj(m)) = doc.get(path) {
+            if m.iter().any(|(k, v)| k == "@type" && matches!(v, J::Str(t) if t.ends_with("Selector"))) {
+                let inner = doc.get(path).unwrap().clone();
+                let mut d = doc.clone();
+                *d.get_mut(path).unwrap() = J::Obj(vec![("@type".into(), J::Str("CompositeSelector".into())), ("selectors".into(), J::Arr(vec![inner.clone(), inner]))]);
+                out.push((Mutation { op: "wrap-selector-in-complex".into(), path: path.clone() }, d));
+            }
+        }
+    }
+    out
+}
+
+// ---------------------------------------------------------------------------------------------
+// seeds
+
+pub struct Seed {
+    pub name: String,
+    pub loader: Loader,
+    /// main document bytes
+    pub doc: Vec<u8>,
+    /// auxiliary files that must exist next to the document (name, content)
+    pub aux: Vec<(String, Vec<u8>)>,
+    /// file name of the main document
+    pub filename: String,
+}
+
+fn seed_histories() -> Vec<(&'static str, Vec<Op>)> {
+    let t = |b, e| TSimple::Text { res: "r0".into(), off: Off::simple(b, e) };
+    let d = |k: &str, v: &str, id: Option<&str>| DataT::New { set: "s0".into(), key: k.into(), val: Val::S(v.into()), id: id.map(|s| s.to_string()) };
+    let ann = |id: Option<&str>, target: Target, data: Vec<DataT>| Op::Annotate { id: id.map(|s| s.to_string()), target, data };
+    let base = vec![Op::AddRes { id: "r0".into(), text: "a\u{e9} \u{1d11e}d".into() }, Op::AddSet { id: "s0".into() }];
+    let mut v = Vec::new();
+    let mut h = base.clone();
+    h.push(ann(Some("a0"), Target::simple(t(0, 3)), vec![d("k0", "v", Some("D0"))]));
+    h.push(ann(Some("a1"), Target::simple(TSimple::Text { res: "r0".into(), off: Off { b: Cur::E(-2), e: Cur::E(0) } }), vec![d("k1", "w", None)]));
+    v.push(("text", h.clone()));
+    let mut h2 = h.clone();
+    h2.push(ann(Some("a2"), Target::simple(TSimple::Ann { ann: "a0".into(), off: Some(Off::simple(0, 1)) }), vec![]));
+    h2.push(ann(None, Target::simple(TSimple::Ann { ann: "a1".into(), off: None }), vec![DataT::Existing { set: "s0".into(), id: "D0".into() }]));
+    h2.push(Op::RemoveAnn("a1".into()));
+    v.push(("annotation-selectors-gaps-tempids", h2));
+    let mut h3 = h.clone();
+    h3.push(ann(Some("m0"), Target::simple(TSimple::Res("r0".into())), vec![d("k0", "v", None)]));
+    h3.push(ann(Some("m1"), Target::simple(TSimple::Set("s0".into())), vec![]));
+    h3.push(ann(Some("m2"), Target::simple(TSimple::Key("s0".into(), "k0".into())), vec![]));
+    h3.push(ann(Some("m3"), Target::simple(TSimple::Data("s0".into(), DRef::Id("D0".into()))), vec![]));
+    v.push(("metadata-selectors", h3));
+    let mut h4 = h.clone();
+    h4.push(ann(Some("c0"), Target { kind: TKind::Multi, parts: vec![t(0, 1), t(1, 2), t(3, 5)] }, vec![]));
+    h4.push(ann(Some("c1"), Target { kind: TKind::Directional, parts: vec![TSimple::Ann { ann: "a1".into(), off: Some(Off::whole()) }, TSimple::Ann { ann: "a0".into(), off: Some(Off::whole()) }] }, vec![]));
+    h4.push(ann(Some("c2"), Target { kind: TKind::Composite, parts: vec![TSimple::Ann { ann: "a0".into(), off: None }, TSimple::Ann { ann: "a1".into(), off: None }] }, vec![]));
+    v.push(("complex-selectors", h4));
+    v
+}
+
+fn build_seeds(dir: &str, tier: Tier) -> Vec<Seed> {
+    let mut seeds = Vec::new();
+    let cfgc = Config::default().with_dataformat(DataFormat::Json { compact: true });
+    for (name, hist) in seed_histories() {
+        let (mut store, outs) = replay_real(&hist);
+        assert!(outs.iter().all(|o| o.is_ok()), "seed history {} must build: {:?}", name, outs);
+        // JSON store
+        let json = store.to_json_string(&cfgc).expect("seed json");
+        seeds.push(Seed { name: format!("json:{}", name), loader: Loader::StoreJson, doc: json.clone().into_bytes(), aux: vec![], filename: "doc.store.stam.json".into() });
+        // annotation array for annotate_from_file (base store = resources + datasets only)
+        if name == "annotation-selectors-gaps-tempids" || name == "complex-selectors" {
+            if let Some(J::Obj(m)) = J::parse(&json) {
+                let anns = m.iter().find(|(k, _)| k == "annotations").map(|(_, v)| v.clone()).unwrap_or(J::Arr(vec![]));
+                let basedoc = J::Obj(m.iter().filter(|(k, _)| k != "annotations").cloned().chain(std::iter::once(("annotations".to_string(), J::Arr(vec![])))).collect());
+                seeds.push(Seed {
+                    name: format!("annotations:{}", name),
+                    loader: Loader::AnnotateFromFile,
+                    doc: anns.to_string().into_bytes(),
+                    aux: vec![("base.store.stam.json".into(), basedoc.to_string().into_bytes())],
+                    filename: "doc.annotations.json".into(),
+                });
+            }
+        }
+        // dataset file
+        if name == "text" || name == "metadata-selectors" {
+            if let Some(J::Obj(m)) = J::parse(&json) {
+                if let Some((_, J::Arr(sets))) = m.iter().find(|(k, _)| k == "annotationsets") {
+                    if let Some(set) = sets.first() {
+                        seeds.push(Seed { name: format!("dataset:{}", name), loader: Loader::DatasetJson, doc: set.to_string().into_bytes(), aux: vec![], filename: "doc.annotationset.stam.json".into() });
+                    }
+                }
+            }
+        }
+        // CSV triple and CBOR
+        if name != "metadata-selectors" || tier == Tier::Thorough {
+            let d = format!("{}/seed-{}", dir, name);
+            let _ = std::fs::create_dir_all(&d);
+            if store.to_file(&format!("{}/doc.store.stam.csv", d)).is_ok() {
+                let mut aux = Vec::new();
+                let mut main = Vec::new();
+                for e in std::fs::read_dir(&d).unwrap().flatten() {
+                    let fname = e.file_name().to_string_lossy().to_string();
+                    let content = std::fs::read(e.path()).unwrap_or_default();
+                    if fname == "doc.store.stam.csv" {
+                        main = content;
+                    } else {
+                        aux.push((fname, content));
+                    }
+                }
+                // each CSV file of the triple is mutated in turn
+                let mut files = vec![("doc.store.stam.csv".to_string(), main.clone())];
+                files.extend(aux.iter().filter(|(n, _)| n.ends_with(".csv")).cloned());
+                for (fname, content) in &files {
+                    let mut others: Vec<(String, Vec<u8>)> = vec![("doc.store.stam.csv".to_string(), main.clone())];
+                    others.extend(aux.iter().cloned());
+                    others.retain(|(n, _)| n != fname);
+                    seeds.push(Seed { name: format!("csv:{}:{}", name, fname.replace("doc.", "")), loader: Loader::StoreCsv, doc: content.clone(), aux: others, filename: fname.clone() });
+                }
+            }
+            let _ = std::fs::remove_dir_all(&d);
+        }
+        let (mut store2, _) = replay_real(&hist);
+        let d = format!("{}/seedc-{}", dir, name);
+        let _ = std::fs::create_dir_all(&d);
+        if store2.to_file(&format!("{}/doc.store.stam.cbor", d)).is_ok() {
+            if let Ok(bytes) = std::fs::read(format!("{}/doc.store.stam.cbor", d)) {
+                if name == "text" || name == "annotation-selectors-gaps-tempids" || tier == Tier::Thorough {
+                    seeds.push(Seed { name: format!("cbor:{}", name), loader: Loader::StoreCbor, doc: bytes, aux: vec![], filename: "doc.store.stam.cbor".into() });
+                }
+            }
+        }
+        let _ = std::fs::remove_dir_all(&d);
+    }
+    // cyclic / dangling store-level @include references (hand-written: the writer never produces them)
+    let inc = |name: &str, include: &str| -> Vec<u8> {
+        format!("{{\"@type\":\"AnnotationStore\",\"@id\":\"{}\",\"@include\":\"{}\",\"resources\":[],\"annotationsets\":[],\"annotations\":[]}}", name, include).into_bytes()
+    };
+    seeds.push(Seed { name: "include:self".into(), loader: Loader::StoreJson, doc: inc("a", "doc.store.stam.json"), aux: vec![], filename: "doc.store.stam.json".into() });
+    seeds.push(Seed {
+        name: "include:mutual".into(),
+        loader: Loader::StoreJson,
+        doc: inc("a", "b.store.stam.json"),
+        aux: vec![("b.store.stam.json".into(), inc("b", "doc.store.stam.json"))],
+        filename: "doc.store.stam.json".into(),
+    });
+    seeds.push(Seed {
+        name: "include:deep-cycle".into(),
+        loader: Loader::StoreJson,
+        doc: inc("a", "b.store.stam.json"),
+        aux: vec![("b.store.stam.json".into(), inc("b", "c.store.stam.json")), ("c.store.stam.json".into(), inc("c", "b.store.stam.json"))],
+        filename: "doc.store.stam.json".into(),
+    });
+    seeds.push(Seed { name: "include:dangling".into(), loader: Loader::StoreJson, doc: inc("a", "missing.store.stam.json"), aux: vec![], filename: "doc.store.stam.json".into() });
+    seeds
+}
+
+// ---------------------------------------------------------------------------------------------
+// documents to load
+
+pub struct Doc {
+    pub seed: usize,
+    pub op: String,
+    pub class: String,
+    pub bytes: Vec<u8>,
+    pub deviations: usize,
+}
+
+fn csv_mutations(content: &[u8]) -> Vec<(String, String, Vec<u8>)> {
+    let text = String::from_utf8_lossy(content).to_string();
+    let rows: Vec<Vec<String>> = text.lines().map(|l| l.split(',').map(|c| c.to_string()).collect()).collect();
+    let render = |rows: &Vec<Vec<String>>| -> Vec<u8> { (rows.iter().map(|r| r.join(",")).collect::<Vec<_>>().join("\n") + "\n").into_bytes() };
+    let header: Vec<String> = rows.first().cloned().unwrap_or_default();
+    let menu = ["", "nope", "!A4000000000", "!D999999999", "-1", "99999999999999999999", "0", "-0", "TextSelector", "MultiSelector;TextSelector", "AnnotationDataSelector", ";", "a;b;c", "\"", "-9223372036854775808"];
+    let mut out = Vec::new();
+    for (ri, row) in rows.iter().enumerate() {
+        for (ci, _) in row.iter().enumerate() {
+            let col = header.get(ci).cloned().unwrap_or_else(|| format!("col{}", ci));
+            let rowclass = if ri == 0 { "header" } else { "row" };
+            for m in menu {
+                if rows[ri][ci] == m {
+                    continue;
+                }
+                let mut r = rows.clone();
+                r[ri][ci] = m.to_string();
+                out.push((format!("cell:={}", if m.is_empty() { "<empty>" } else { m }), format!("{}.{}", rowclass, col), render(&r)));
+            }
+        }
+        let mut r = rows.clone();
+        r.remove(ri);
+        out.push(("row-delete".into(), if ri == 0 { "header".into() } else { "row".into() }, render(&r)));
+        let mut r = rows.clone();
+        let dup = r[ri].clone();
+        r.insert(ri, dup);
+        out.push(("row-duplicate".into(), if ri == 0 { "header".into() } else { "row".into() }, render(&r)));
+    }
+    for ci in 0..header.len() {
+        let mut r = rows.clone();
+        for row in r.iter_mut() {
+            if ci < row.len() {
+                row.remove(ci);
+            }
+        }
+        out.push(("column-drop".into(), header[ci].clone(), render(&r)));
+    }
+    out
+}
+
+fn cbor_mutations(content: &[u8]) -> Vec<(String, String, Vec<u8>)> {
+    let mut out = Vec::new();
+    let region = |i: usize| -> String {
+        // coarse position class: tenth of the file
+        format!("tenth{}", i * 10 / content.len().max(1))
+    };
+    for n in 0..content.len() {
+        out.push(("truncate".into(), region(n), content[..n].to_vec()));
+    }
+    for i in 0..content.len() {
+        for bit in 0..8 {
+            let mut c = content.to_vec();
+            c[i] ^= 1 << bit;
+            out.push((format!("bitflip{}", bit), region(i), c));
+        }
+        for v in [0x00u8, 0x1b, 0x5b, 0x9b, 0xff] {
+            if content[i] != v {
+                let mut c = content.to_vec();
+                c[i] = v;
+                out.push((format!("byte:={:#04x}", v), region(i), c));
+            }
+        }
+    }
+    out
+}
+
+fn docs_for_seed(si: usize, seed: &Seed, two: bool) -> Vec<Doc> {
+    let mut docs = vec![Doc { seed: si, op: "none".into(), class: "unchanged".into(), bytes: seed.doc.clone(), deviations: 0 }];
+    if seed.name.starts_with("include:") {
+        return docs;
+    }
+    match seed.loader {
+        Loader::StoreJson | Loader::AnnotateFromFile | Loader::DatasetJson => {
+            let text = String::from_utf8_lossy(&seed.doc).to_string();
+            if let Some(j) = J::parse(&text) {
+                let ids: Vec<String> = vec!["a0".into(), "a1".into(), "r0".into(), "s0".into(), "D0".into(), "k0".into(), "!A0".into(), "!A1".into(), "!D1".into()];
+                let first = json_mutations(&j, &ids);
+                for (m, d) in &first {
+                    docs.push(Doc { seed: si, op: m.op.clone(), class: j.path_class(&m.path), bytes: d.to_string().into_bytes(), deviations: 1 });
+                }
+                if two {
+                    // second deviation: structural operators only (delete / duplicate / swap / a small retype menu), applied to every first-level mutant
+                    for (m1, d1) in &first {
+                        if !(m1.op == "delete" || m1.op == "duplicate" || m1.op.starts_with("retype:tempid") || m1.op == "redirect-reference") {
+                            continue;
+                        }
+                        for (m2, d2) in json_mutations(d1, &ids) {
+                            if m2.op == "delete" || m2.op == "swap-with-next" || m2.op.starts_with("retype:tempid") || m2.op == "redirect-reference" || m2.op == "retype:null" {
+                                docs.push(Doc { seed: si, op: format!("{}+{}", m1.op, m2.op), class: format!("{}+{}", j.path_class(&m1.path), d1.path_class(&m2.path)), bytes: d2.to_string().into_bytes(), deviations: 2 });
+                            }
+                        }
+                    }
+                }
+            }
+        }
+        Loader::StoreCsv => {
+            for (op, class, bytes) in csv_mutations(&seed.doc) {
+                docs.push(Doc { seed: si, op, class, bytes, deviations: 1 });
+            }
+        }
+        Loader::StoreCbor => {
+            for (op, class, bytes) in cbor_mutations(&seed.doc) {
+                docs.push(Doc { seed: si, op, class, bytes, deviations: 1 });
+            }
+        }
+    }
+    docs
+}
+
+// ---------------------------------------------------------------------------------------------
+// parent side: worker pool
+
+struct Worker {
+    child: Child,
+    rx: mpsc::Receiver<String>,
+}
+
+fn spawn_worker() -> Worker {
+    let exe = std::env::current_exe().expect("current exe");
+    let mut child = Command::new(exe).arg("worker").stdin(Stdio::piped()).stdout(Stdio::piped()).stderr(Stdio::null()).spawn().expect("spawn worker");
+    let stdout = child.stdout.take().unwrap();
+    let (tx, rx) = mpsc::channel();
+    std::thread::spawn(move || {
+        let reader = BufReader::new(stdout);
+        for line in reader.lines() {
+            match line {
+                Ok(l) => {
+                    if tx.send(l).is_err() {
+                        break;
+                    }
+                }
+                Err(_) => break,
+            }
+        }
+    });
+    Worker { child, rx }
+}
+
+/// send one request, wait for the verdict; restarts the worker when it dies or exceeds the time limit
+fn ask(w: &mut Worker, id: u64, loader: Loader, path: &str, base: &str, limit: Duration) -> String {
+    let req = format!("{} {} {} {}\n", id, loader.name(), path, base);
+    let ok = w.child.stdin.as_mut().map(|s| s.write_all(req.as_bytes()).and_then(|_| s.flush()).is_ok()).unwrap_or(false);
+    if !ok {
+        *w = spawn_worker();
+        return "worker-lost-before-request".into();
+    }
+    let mut alloc_marker = false;
+    loop {
+        match w.rx.recv_timeout(limit) {
+            Ok(line) => {
+                if line.starts_with("ABORT alloc-cap") {
+                    alloc_marker = true;
+                    continue;
+                }
+                if let Some(rest) = line.strip_prefix(&format!("END {} ", id)) {
+                    return rest.to_string();
+                }
+                // stray output of the library on stdout: ignore
+            }
+            Err(mpsc::RecvTimeoutError::Timeout) => {
+                let _ = w.child.kill();
+                let _ = w.child.wait();
+                *w = spawn_worker();
+                return "timeout".into();
+            }
+            Err(mpsc::RecvTimeoutError::Disconnected) => {
+                let status = w.child.wait().ok();
+                *w = spawn_worker();
+                if alloc_marker {
+                    return "alloc-cap".into();
+                }
+                return format!("abort:{}", status.map(|s| format!("{}", s)).unwrap_or_default());
+            }
+        }
+    }
+}
+
+// ---------------------------------------------------------------------------------------------
+
+fn string_parsers(rep: &Reporter) -> u64 {
+    let syms = ['0', '9', '-', '+', 'a', 'T', 'A', 'j', 's', 'o', 'n', '\u{e9}', ' ', '.'];
+    let mut strings: Vec<String> = vec![String::new()];
+    let mut level = vec![String::new()];
+    for _ in 0..3 {
+        let mut next = Vec::new();
+        for s in &level {
+            for c in syms {
+                next.push(format!("{}{}", s, c));
+            }
+        }
+        strings.extend(next.iter().cloned());
+        level = next;
+    }
+    for s in ["-9223372036854775808", "-9223372036854775809", "18446744073709551616", "99999999999999999999", "-0", "TextSelector", "annotationstore", "json", "csv", "cbor"] {
+        strings.push(s.to_string());
+    }
+    let mut n = 0;
+    for s in &strings {
+        let class = crate::c03::str_class(s);
+        let mut one = |name: &str, r: Result<(), String>| {
+            n += 1;
+            if let Err(p) = r {
+                rep.fail(&format!("string-parser|{}|panic:{}|str={}", name, msg_class(&p), class), s.len() as u64, || format!("{}({:?}) panicked", name, s), || json!({"parser": name, "string": s}));
+            }
+        };
+        one("Cursor", catch(|| {
+            let _ = Cursor::try_from(s.as_str());
+        }));
+        one("Type", catch(|| {
+            let _ = Type::try_from(s.as_str());
+        }));
+        one("DataFormat", catch(|| {
+            let _ = DataFormat::try_from(s.as_str());
+        }));
+        one("SelectorKind", catch(|| {
+            let _ = SelectorKind::try_from(s.as_str());
+        }));
+        one("Offset-json", catch(|| {
+            let doc = format!("{{\"@type\":\"Offset\",\"begin\":{{\"@type\":\"BeginAlignedCursor\",\"value\":{}}},\"end\":{{\"@type\":\"EndAlignedCursor\",\"value\":{}}}}}", s, s);
+            let _ = serde_json::from_str::<Offset>(&doc);
+        }));
+    }
+    n
+}
+
+pub fn run(rep: &Reporter) -> Coverage {
+    let dir = format!("/verif/.work/c19-{}", std::process::id());
+    let _ = std::fs::remove_dir_all(&dir);
+    std::fs::create_dir_all(&dir).expect("workdir");
+    let seeds = build_seeds(&dir, rep.tier);
+    // documents
+    let mut docs: Vec<Doc> = Vec::new();
+    let mut smallest: Vec<(usize, usize)> = seeds.iter().enumerate().filter(|(_, s)| matches!(s.loader, Loader::StoreJson | Loader::AnnotateFromFile)).map(|(i, s)| (s.doc.len(), i)).collect();
+    smallest.sort();
+    let two_dev: Vec<usize> = if rep.tier == Tier::Thorough { smallest.iter().take(2).map(|x| x.1).collect() } else { vec![] };
+    for (si, seed) in seeds.iter().enumerate() {
+        docs.extend(docs_for_seed(si, seed, two_dev.contains(&si)));
+    }
+    let ndocs = docs.len();
+    // worker pool
+    let nworkers = 16usize;
+    let queue = Mutex::new(docs.into_iter().enumerate().collect::<Vec<_>>());
+    let verdict_counts: Mutex<std::collections::BTreeMap<String, u64>> = Mutex::new(Default::default());
+    let done = AtomicU64::new(0);
+    let limit = Duration::from_secs(5);
+    std::thread::scope(|scope| {
+        for wi in 0..nworkers {
+            let queue = &queue;
+            let seeds = &seeds;
+            let dir = &dir;
+            let verdict_counts = &verdict_counts;
+            let done = &done;
+            scope.spawn(move || {
+                let mut w = spawn_worker();
+                let wdir = format!("{}/w{}", dir, wi);
+                loop {
+                    let item = queue.lock().unwrap().pop();
+                    let (idx, doc) = match item {
+                        Some(x) => x,
+                        None => break,
+                    };
+                    let seed = &seeds[doc.seed];
+                    let _ = std::fs::remove_dir_all(&wdir);
+                    std::fs::create_dir_all(&wdir).unwrap();
+                    for (n, c) in &seed.aux {
+                        std::fs::write(format!("{}/{}", wdir, n), c).unwrap();
+                    }
+                    let path = format!("{}/{}", wdir, seed.filename);
+                    std::fs::write(&path, &doc.bytes).unwrap();
+                    // for CSV the entry point is always the store file
+                    let entry = if seed.loader == Loader::StoreCsv { format!("{}/doc.store.stam.csv", wdir) } else { path.clone() };
+                    let base = format!("{}/base.store.stam.json", wdir);
+                    let verdict = ask(&mut w, idx as u64, seed.loader, &entry, &base, limit);
+                    done.fetch_add(1, Ordering::Relaxed);
+                    let vclass = verdict.split(':').next().unwrap_or("").to_string();
+                    *verdict_counts.lock().unwrap().entry(vclass.clone()).or_insert(0) += 1;
+                    let bad = !(verdict == "ok" || verdict == "err");
+                    // the unchanged seed must load
+                    let seed_broken = doc.deviations == 0 && verdict != "ok" && !seed.name.starts_with("include:");
+                    if bad || seed_broken {
+                        let symptom = if seed_broken && !bad { "unchanged-seed-rejected".to_string() } else { verdict.clone() };
+                        let seedclass = seed.name.split(':').next().unwrap_or("").to_string();
+                        let sig = format!("{}|{}|{}|{}|{}", seed.loader.name(), seedclass, doc.op, doc.class, symptom);
+                        let preview: String = if seed.loader == Loader::StoreCbor {
+                            format!("<{} bytes of CBOR, see document_hex in the replay file>", doc.bytes.len())
+                        } else {
+                            String::from_utf8_lossy(&doc.bytes).chars().map(|c| if c.is_control() { ' ' } else { c }).take(700).collect()
+                        };
+                        rep.fail(
+                            &sig,
+                            (doc.deviations as u64) << 40 | doc.bytes.len() as u64,
+                            || format!("seed {} mutation {} at {}: loader verdict {} -- document: {}", seed.name, doc.op, doc.class, verdict, preview),
+                            || {
+                                json!({"loader": seed.loader.name(), "seed": seed.name, "mutation": doc.op, "path": doc.class,
+                                    "document_hex": doc.bytes.iter().map(|b| format!("{:02x}", b)).collect::<String>(),
+                                    "filename": seed.filename,
+                                    "aux": seed.aux.iter().map(|(n, c)| json!({"name": n, "hex": c.iter().map(|b| format!("{:02x}", b)).collect::<String>()})).collect::<Vec<_>>()})
+                            },
+                        );
+                    }
+                }
+                let _ = w.child.kill();
+                let _ = w.child.wait();
+            });
+        }
+    });
+    let nstr = string_parsers(rep);
+    let _ = std::fs::remove_dir_all(&dir);
+    let counts = verdict_counts.into_inner().unwrap();
+    let mut cov = Coverage::default();
+    cov.states = ndocs as u64 + nstr;
+    cov.transitions = done.load(Ordering::Relaxed) + nstr;
+    cov.evaluations = cov.transitions;
+    cov.traces_validated = cov.transitions;
+    cov.distinct_nontrivial = counts.get("ok").copied().unwrap_or(0) + counts.get("inconsistent").copied().unwrap_or(0);
+    cov.rule = "seed documents are produced by the library itself from 4 histories (text, annotation selectors with gaps and temporary ids, metadata selectors, complex selectors) as STAM JSON store, annotation array (annotate_from_file), dataset file, STAM CSV files and CBOR; every single deviation (thorough: every pair on the two smallest JSON seeds) is generated: JSON on an order-preserving tree: delete / duplicate / swap-with-next of every node, retype of every node to each of 14 values (null, true, numbers incl. 2^63 and 1e308, empty string/array/object, temporary ids up to 2^64-1), @type renamed to each other type, every string redirected to every other id, every selector wrapped in a complex selector; CSV: every cell := each of 15 values, row delete/duplicate, column drop; CBOR: every truncation, every single bit flip, every byte := 5 values; each document is loaded by the real loader in a worker process (allocation cap 1 GiB live / 256 MiB per request, 5 s wall limit); verdict must be Err or a store that passes the C01-C03 consistency checks; plus all strings of length <= 3 over 14 symbols through Cursor/Type/DataFormat/SelectorKind/Offset parsers; non-trivial = documents that loaded".into();
+    cov.samples = vec![
+        json!({"seed": "json:text", "mutation": "retype:tempid-4e9", "path": ".annotations[].@id"}),
+        json!({"seed": "cbor:text", "mutation": "bitflip3", "path": "tenth4"}),
+        json!({"seed": "csv:complex-selectors:annotations.stam.csv", "mutation": "cell:=MultiSelector;TextSelector", "path": "row.SelectorType"}),
+    ];
+    cov.exhaustive = true;
+    cov.extra.insert("seeds".into(), json!(seeds.iter().map(|s| json!({"name": s.name, "bytes": s.doc.len()})).collect::<Vec<_>>()));
+    cov.extra.insert("documents".into(), json!(ndocs));
+    cov.extra.insert("verdicts".into(), json!(counts));
+    cov.extra.insert("strings_through_parsers".into(), json!(nstr));
+    cov.extra.insert("two_deviation_seeds".into(), json!(two_dev.iter().map(|i| seeds[*i].name.clone()).collect::<Vec<_>>()));
+    cov.assumptions = vec![
+        "'time proportional to the input' is approximated by a 5 s wall limit on documents below 4 KiB".into(),
+        "'never exhausts memory' is decided by the allocation cap of the worker (1 GiB live, 256 MiB per request)".into(),
+    ];
+    let _ = fnv64;
+    cov
+}
+
+pub fn replay(rep: &Reporter, case: &Value) {
+    if let Some(p) = case["parser"].as_str() {
+        println!("replay C19 string parser {} on {:?}", p, case["string"]);
+        string_parsers(rep);
+        return;
+    }
+    let unhex = |s: &str| -> Vec<u8> { (0..s.len() / 2).filter_map(|i| u8::from_str_radix(&s[2 * i..2 * i + 2], 16).ok()).collect() };
+    let loader = Loader::from_name(case["loader"].as_str().unwrap_or("")).unwrap_or(Loader::StoreJson);
+    let dir = format!("/verif/.work/c19-replay-{}", std::process::id());
+    let _ = std::fs::remove_dir_all(&dir);
+    std::fs::create_dir_all(&dir).unwrap();
+    for a in case["aux"].as_array().cloned().unwrap_or_default() {
+        std::fs::write(format!("{}/{}", dir, a["name"].as_str().unwrap_or("aux")), unhex(a["hex"].as_str().unwrap_or(""))).unwrap();
+    }
+    let fname = case["filename"].as_str().unwrap_or("doc");
+    std::fs::write(format!("{}/{}", dir, fname), unhex(case["document_hex"].as_str().unwrap_or(""))).unwrap();
+    let entry = if loader == Loader::StoreCsv { format!("{}/doc.store.stam.csv", dir) } else { format!("{}/{}", dir, fname) };
+    let mut w = spawn_worker();
+    let verdict = ask(&mut w, 0, loader, &entry, &format!("{}/base.store.stam.json", dir), Duration::from_secs(5));
+    let _ = w.child.kill();
+    println!("replay C19: loader={} seed={} mutation={} at {} -> verdict {}", loader.name(), case["seed"], case["mutation"], case["path"], verdict);
+    if !(verdict == "ok" || verdict == "err") {
+        rep.fail(&format!("{}|replay|{}", loader.name(), verdict), 0, || verdict.clone(), || case.clone());
+    }
+    let _ = std::fs::remove_dir_all(&dir);
+}
